@@ -122,6 +122,7 @@ pub fn run_async(b: &mut BuiltAsync, sc: &Scenario, spec: &StratSpec, seed: u64,
         }
     }
     rayon::stats::reset();
+    ctx.dispatching.store(true, Ordering::SeqCst);
     let setups0: Vec<u64> = ctx.states.iter().map(|s| s.setup.load(Ordering::SeqCst)).collect();
     let strategy = make_strategy(spec, seed, &ctx, &b.layout);
     let cfg = detsim::Config { seed, strategy, replay, max_steps: MAX_STEPS };
@@ -198,6 +199,8 @@ pub fn run_async(b: &mut BuiltAsync, sc: &Scenario, spec: &StratSpec, seed: u64,
         }
         detsim::yield_with_info(PH_CALLER);
     });
+    ctx.dispatching.store(false, Ordering::SeqCst);
+    ctx.reap_pending();
     let events = std::mem::take(&mut *ctx.events.lock().unwrap());
     // a background job that panicked (real rayon would abort the process) never hands the
     // state back: the dispatcher is unusable from here on
